@@ -254,6 +254,8 @@ pub struct Report {
     extra: BTreeMap<String, Value>,
     max_samples: usize,
     exhaustive: Option<bool>,
+    held: u64,
+    violating: u64,
 }
 
 impl Report {
@@ -277,6 +279,8 @@ impl Report {
             extra: BTreeMap::new(),
             max_samples: 6,
             exhaustive: None,
+            held: 0,
+            violating: 0,
         }
     }
 
@@ -326,6 +330,7 @@ impl Report {
         }
         match r.verdict {
             Verdict::Held => {
+                self.held += 1;
                 if r.nontrivial {
                     self.distinct.insert(fnv(&r.key));
                 }
@@ -334,8 +339,12 @@ impl Report {
                 }
             }
             Verdict::Violated { signature, detail } => {
+                self.violating += 1;
                 if r.nontrivial {
                     self.distinct.insert(fnv(&r.key));
+                }
+                if let Some(s) = r.sample {
+                    self.add_sample(s);
                 }
                 self.violations.push((signature, detail));
             }
@@ -400,6 +409,8 @@ impl Report {
             self.samples.push(json!("no sample recorded"));
         }
         coverage.insert("samples".into(), Value::Array(self.samples.clone()));
+        coverage.insert("held_cases".into(), json!(self.held));
+        coverage.insert("violating_cases_including_known".into(), json!(self.violating));
         coverage.insert("counters".into(), json!(self.counters));
         let sets: BTreeMap<String, Value> = self
             .sets
@@ -518,6 +529,7 @@ where
     F: Fn(usize) -> Vec<CaseResult> + Sync,
 {
     let next = AtomicUsize::new(0);
+    let per_sig: Mutex<BTreeMap<String, usize>> = Mutex::new(BTreeMap::new());
     let out: Mutex<Vec<(usize, Vec<CaseResult>)>> = Mutex::new(Vec::with_capacity(n));
     std::thread::scope(|s| {
         for _ in 0..threads.max(1) {
@@ -528,7 +540,21 @@ where
                         break;
                     }
                     let r = match guarded(|| f(i)) {
-                        Ok(r) => r,
+                        Ok(mut r) => {
+                            // keep the (possibly large) witness of only the first few violations of
+                            // each signature: a badly broken tree must not exhaust memory
+                            for c in r.iter_mut() {
+                                if let Verdict::Violated { signature, detail } = &mut c.verdict {
+                                    let mut seen = per_sig.lock().unwrap();
+                                    let n = seen.entry(signature.clone()).or_insert(0usize);
+                                    *n += 1;
+                                    if *n > 25 {
+                                        *detail = Value::Null;
+                                    }
+                                }
+                            }
+                            r
+                        }
                         Err(msg) => vec![CaseResult::inconclusive(
                             format!("case{i}"),
                             format!("harness panic: {}", panic_site(&msg)),
@@ -551,4 +577,212 @@ pub fn pick<'a, T>(rng: &mut SmallRng, xs: &'a [T]) -> &'a T {
 
 pub fn chance(rng: &mut SmallRng, num: u32, den: u32) -> bool {
     rng.random_range(0..den) < num
+}
+
+
+// ---------------------------------------------------------------------------------------------
+// Crash-isolated case execution
+// ---------------------------------------------------------------------------------------------
+
+fn case_to_json(r: &CaseResult) -> Value {
+    let (v, sig, detail, why) = match &r.verdict {
+        Verdict::Held => ("held", None, None, None),
+        Verdict::Violated { signature, detail } => ("violated", Some(signature.clone()), Some(detail.clone()), None),
+        Verdict::Inconclusive(w) => ("inconclusive", None, None, Some(w.clone())),
+    };
+    json!({"key": r.key, "nontrivial": r.nontrivial, "verdict": v, "signature": sig, "detail": detail, "why": why,
+           "counters": r.counters, "sample": r.sample})
+}
+
+fn case_from_json(v: &Value) -> Option<CaseResult> {
+    let verdict = match v["verdict"].as_str()? {
+        "held" => Verdict::Held,
+        "violated" => Verdict::Violated {
+            signature: v["signature"].as_str()?.to_string(),
+            detail: v["detail"].clone(),
+        },
+        _ => Verdict::Inconclusive(v["why"].as_str().unwrap_or("").to_string()),
+    };
+    Some(CaseResult {
+        key: v["key"].as_str()?.to_string(),
+        nontrivial: v["nontrivial"].as_bool()?,
+        verdict,
+        counters: v["counters"]
+            .as_array()
+            .map(|a| a.iter().filter_map(|c| Some((c[0].as_str()?.to_string(), c[1].as_u64()?))).collect())
+            .unwrap_or_default(),
+        sample: if v["sample"].is_null() { None } else { Some(v["sample"].clone()) },
+    })
+}
+
+static ISO_CALL: AtomicUsize = AtomicUsize::new(0);
+
+/// Like [`run_cases`], but every shard of cases runs in a child process of this same binary
+/// (same arguments) under an address-space limit. A case that makes the code under test abort
+/// (stack overflow, allocation failure, runaway memory, SIGSEGV) or hang kills only its shard:
+/// it is reported as a `process-crash/..` violation and the shard resumes after it.
+///
+/// The caller's `main` must reach this call deterministically from its arguments (children
+/// re-execute `main` up to the same call and then exit).
+pub fn run_cases_isolated<F>(n: usize, threads: usize, f: F) -> Vec<CaseResult>
+where
+    F: Fn(usize) -> Vec<CaseResult> + Sync,
+{
+    use std::io::{BufRead, BufReader, Write};
+    let call = ISO_CALL.fetch_add(1, Ordering::SeqCst);
+    if let Ok(spec) = std::env::var("P3R_ISO_CHILD") {
+        // child: "<call>:<from>:<step>" — run indices from, from+step, ... of invocation <call>
+        let parts: Vec<usize> = spec.split(':').filter_map(|x| x.parse().ok()).collect();
+        if parts.len() == 3 && parts[0] == call {
+            let (from, step) = (parts[1], parts[2].max(1));
+            let out = std::io::stdout();
+            let mut i = from;
+            while i < n {
+                {
+                    let mut o = out.lock();
+                    let _ = writeln!(o, "S {i}");
+                    let _ = o.flush();
+                }
+                let rs = match guarded(|| f(i)) {
+                    Ok(r) => r,
+                    Err(msg) => vec![CaseResult::inconclusive(
+                        format!("case{i}"),
+                        format!("harness panic: {}", panic_site(&msg)),
+                    )],
+                };
+                let mut o = out.lock();
+                for r in &rs {
+                    let _ = writeln!(o, "R {}", case_to_json(r));
+                }
+                let _ = writeln!(o, "E {i}");
+                let _ = o.flush();
+                i += step;
+            }
+            std::process::exit(0);
+        }
+        // an earlier / later invocation in the child: nothing to do here
+        return vec![];
+    }
+    if std::env::var("P3R_NO_ISOLATION").is_ok() || n == 0 {
+        return run_cases(n, threads, f);
+    }
+    let exe = std::env::current_exe().expect("current exe");
+    let argv: Vec<String> = std::env::args().skip(1).collect();
+    let shards = threads.max(1).min(n);
+    let mem_kb: u64 = std::env::var("P3R_ISO_MEM_KB").ok().and_then(|s| s.parse().ok()).unwrap_or(6_000_000);
+    let case_timeout = std::time::Duration::from_secs(
+        std::env::var("P3R_ISO_CASE_TIMEOUT_S").ok().and_then(|s| s.parse().ok()).unwrap_or(300),
+    );
+    let results: Mutex<Vec<(usize, CaseResult)>> = Mutex::new(vec![]);
+    std::thread::scope(|s| {
+        for shard in 0..shards {
+            let (exe, argv, results) = (&exe, &argv, &results);
+            s.spawn(move || {
+                let mut from = shard;
+                let mut restarts = 0usize;
+                while from < n {
+                    let mut cmd = std::process::Command::new("sh");
+                    cmd.arg("-c")
+                        .arg(format!("ulimit -v {mem_kb}; exec \"$0\" \"$@\""))
+                        .arg(exe)
+                        .args(argv)
+                        .env("P3R_ISO_CHILD", format!("{call}:{from}:{shards}"))
+                        .stdout(std::process::Stdio::piped())
+                        .stderr(std::process::Stdio::piped());
+                    let Ok(mut child) = cmd.spawn() else {
+                        results.lock().unwrap().push((from, CaseResult::inconclusive(format!("shard{shard}"), "cannot spawn child")));
+                        return;
+                    };
+                    let stdout = child.stdout.take().unwrap();
+                    let last_activity = std::sync::Arc::new(Mutex::new(Instant::now()));
+                    let done = std::sync::Arc::new(std::sync::atomic::AtomicBool::new(false));
+                    // watchdog: a case that produces no output for too long is killed
+                    let pid = child.id();
+                    let (la, dn) = (last_activity.clone(), done.clone());
+                    let wd = std::thread::spawn(move || {
+                        while !dn.load(Ordering::SeqCst) {
+                            std::thread::sleep(std::time::Duration::from_millis(500));
+                            if la.lock().unwrap().elapsed() > case_timeout {
+                                let _ = std::process::Command::new("kill").arg("-9").arg(pid.to_string()).status();
+                                return true;
+                            }
+                        }
+                        false
+                    });
+                    let mut in_flight: Option<usize> = None;
+                    let mut finished_upto: Option<usize> = None;
+                    for line in BufReader::new(stdout).lines().map_while(Result::ok) {
+                        *last_activity.lock().unwrap() = Instant::now();
+                        if let Some(i) = line.strip_prefix("S ") {
+                            in_flight = i.trim().parse().ok();
+                        } else if let Some(j) = line.strip_prefix("R ") {
+                            if let Ok(v) = serde_json::from_str::<Value>(j) {
+                                if let Some(r) = case_from_json(&v) {
+                                    results.lock().unwrap().push((in_flight.unwrap_or(from), r));
+                                }
+                            }
+                        } else if let Some(i) = line.strip_prefix("E ") {
+                            finished_upto = i.trim().parse().ok();
+                            in_flight = None;
+                        }
+                    }
+                    let status = child.wait();
+                    done.store(true, Ordering::SeqCst);
+                    let timed_out = wd.join().unwrap_or(false);
+                    let mut stderr_tail = String::new();
+                    if let Some(mut e) = child.stderr.take() {
+                        use std::io::Read;
+                        let mut buf = String::new();
+                        let _ = e.read_to_string(&mut buf);
+                        stderr_tail = buf.lines().rev().take(6).collect::<Vec<_>>().join(" | ");
+                    }
+                    let ok = status.as_ref().map(|s| s.success()).unwrap_or(false);
+                    if ok {
+                        return;
+                    }
+                    // the child died: blame the in-flight case, resume after it
+                    let crashed = in_flight.or(finished_upto.map(|i| i + shards)).unwrap_or(from);
+                    let reason = if timed_out {
+                        "timeout".to_string()
+                    } else {
+                        match status {
+                            Ok(st) => {
+                                use std::os::unix::process::ExitStatusExt;
+                                if stderr_tail.contains("stack overflow") {
+                                    "stack-overflow".to_string()
+                                } else if stderr_tail.contains("memory allocation") {
+                                    "allocation-failure".to_string()
+                                } else if let Some(sig) = st.signal() {
+                                    format!("signal-{sig}")
+                                } else {
+                                    format!("exit-{}", st.code().unwrap_or(-1))
+                                }
+                            }
+                            Err(_) => "unknown".into(),
+                        }
+                    };
+                    let verdict = if timed_out {
+                        CaseResult::inconclusive(format!("case{crashed}"), format!("case exceeded {}s without output (killed)", case_timeout.as_secs()))
+                    } else {
+                        CaseResult::violated(
+                            format!("case{crashed}"),
+                            format!("process-crash/{reason}"),
+                            json!({"case_index": crashed, "reason": reason, "stderr_tail": stderr_tail,
+                                   "note": "re-run the monitor with --only <case_index> (where supported) to reproduce"}),
+                        )
+                    };
+                    results.lock().unwrap().push((crashed, verdict));
+                    restarts += 1;
+                    if restarts > 12 {
+                        results.lock().unwrap().push((crashed, CaseResult::inconclusive(format!("shard{shard}"), "too many crashes in one shard; remaining cases skipped")));
+                        return;
+                    }
+                    from = crashed + shards;
+                }
+            });
+        }
+    });
+    let mut v = results.into_inner().unwrap();
+    v.sort_by_key(|(i, _)| *i);
+    v.into_iter().map(|(_, r)| r).collect()
 }
